@@ -353,11 +353,15 @@ func freshRow(o *observations, d *dbset, s int, row rowSpec, k int, label string
 				}
 			}
 		}
+		known, _ := d.meta.FindTagValueDsByExpr(kid, &stmt.EqualsExpr{Key: kv[0], Value: kv[1]})
 		vid, err := d.meta.GenTagValueID(kid, []byte(kv[1]))
 		if err != nil {
 			continue
 		}
 		o.observe(97, "tagvalue", fmt.Sprintf("tagkey=%d", kid), kv[1], vid, o.tick(), o.tick())
+		if known != nil && !known.IsEmpty() {
+			continue // not brand-new (an earlier fresh row of this image created it and indexed a series under it)
+		}
 		for si := range d.idx {
 			ids, err := d.idx[si].GetSeriesIDsByTagValueIDs(kid, roaring.BitmapOf(vid))
 			if err == nil && ids != nil && !ids.IsEmpty() {
